@@ -13,6 +13,7 @@
 From Coq Require Import String List Arith Bool Permutation.
 Import ListNotations.
 From NP Require Import Base Values Dtype Names Io Proofs_Io.
+From NP Require Import Arrow Abs Kernels Logical ExtArray Codec Steps Io2 Proofs_Io2.
 
 Theorem C08_removal_by_descending_position_is_filtering : forall (idx : list nat) (l : list outcol),
   NoDup idx -> (forall i, In i idx -> i < length l) ->
@@ -50,6 +51,37 @@ Theorem C08_removal_order_matters : exists (idx : list nat) (l : list nat),
   <> map snd (filter (fun p => negb (existsb (Nat.eqb (fst p)) idx)) (combine (seq 0 (length l)) l)).
 Proof. exact removal_order_matters. Qed.
 Print Assumptions C08_removal_order_matters.
+
+(* the CONTENT of a partially loaded nested column (Io2.v: the leaves the file returns carry the struct's validity; the
+   reader rebuilds the struct and marks a row missing when every requested leaf is null): for EVERY column satisfying
+   the invariant - any chunking (row groups), offsets base, size - and every non-empty duplicate-free selection of
+   existing fields, the partial load denotes exactly the selected fields of the full column: same rows, same missing
+   rows, same lists, in the order of the request; it is what selecting the fields of the fully loaded column gives;
+   the result satisfies the invariant again; the reader WITHOUT the mask (the unrepaired io.py) returns a missing row
+   as a present one *)
+Theorem C08_partial_load_holds_the_selected_fields : forall p sel,
+  inv_b p = true -> sel <> [] -> nodupb sel = true -> forallb (has_name (map fst (ctype p))) sel = true ->
+  res_map abs (m_partial_load p sel) = Ok (spec_select_fields (abs p) sel).
+Proof. exact partial_load_refines. Qed.
+Print Assumptions C08_partial_load_holds_the_selected_fields.
+
+Theorem C08_partial_load_is_field_selection_of_the_full_read : forall p sel,
+  inv_b p = true -> sel <> [] -> nodupb sel = true -> forallb (has_name (map fst (ctype p))) sel = true ->
+  res_map abs (m_partial_load p sel) = res_map abs (m_view_fields p sel).
+Proof. exact partial_load_is_view_fields. Qed.
+Print Assumptions C08_partial_load_is_field_selection_of_the_full_read.
+
+Theorem C08_partial_load_keeps_invariant : forall p sel p',
+  inv_b p = true -> sel <> [] -> nodupb sel = true -> forallb (has_name (map fst (ctype p))) sel = true ->
+  m_partial_load p sel = Ok p' -> inv_b p' = true.
+Proof. exact partial_load_inv. Qed.
+Print Assumptions C08_partial_load_keeps_invariant.
+
+Theorem C08_unrepaired_reader_refuted :
+  res_map svalid (m_partial_chunk_unrepaired missing_witness ["a"%string]) = Ok [true; true] /\
+  res_map svalid (m_partial_chunk missing_witness ["a"%string]) = Ok [true; false].
+Proof. exact unrepaired_partial_load_refuted. Qed.
+Print Assumptions C08_unrepaired_reader_refuted.
 
 (* non-vacuity: fields of two nests requested interleaved with a base column *)
 Example C08_nonvacuous :
